@@ -7,11 +7,19 @@ tie     : (i) mps_error call sites driven through the API (harness/c18_error.c) 
           (ii) results snapshot before/after a solve with the flag set (harness/c15_reuse.c);
           (iii) mps_mpsolve_async with a callback counter and abort injection under real threads
           (harness/c18_async.c).
-verdict : on the real library's output only (message == intended text, results unchanged, callback count,
-          time to return after abort); wall-clock "promptly" is partial.
+          (iv) harness/c18_sched.c: the real mps_mpsolve_async + mps_context_abort under the deterministic scheduler shim
+          (ASan+UBSan build in which every access to exit_required is a hook, harness/c18_hooks.h), the abort placed at
+          EVERY scheduling point of short solves (full sweeps on the smallest cases, strided ones otherwise, default and
+          random schedules, both algorithms, 1-3 threads); every secular run is replayed, program point by program
+          point, through the extracted transition system of coq/Ctx/AbortModel.v (bin/abort).
+verdict : on the real library's output only (message == intended text, results unchanged, callback count, shim verdict,
+          error flag or oracle-certified inclusions, Newton steps / packets / regenerations after the abort request);
+          a run the model cannot reproduce is a broken correspondence; wall-clock "promptly" is partial.
 """
-import json, re
+import json, re, os, collections, concurrent.futures as cf
+from fractions import Fraction as Fr
 import vf
+import solve as S, polygen as G, e2e
 
 PREFIX = {"file": "Error while opening file: ", "opt": "Unrecognized option: "}
 
@@ -188,6 +196,366 @@ def async_cases(ctx, h, info):
                                   "exit_required is never cleared: after an abort request the next solve on the same context stops early without error (largest radius 2^%s instead of 2^%s on a fresh context)" % (r["second_radexp"], r["fresh_radexp"]), rp)
 
 
+# ---------------------------------------------------------------------------------------------------------------
+# (iv) abort at every scheduling point under the deterministic scheduler
+WRAP = "-Wl," + ",".join("--wrap=" + f for f in (
+    "vf_mutex_lock vf_mutex_unlock vf_mutex_trylock vf_cond_wait vf_cond_signal vf_cond_broadcast vf_create vf_join vf_yield "
+    "mps_secular_ga_mpsolve mps_standard_mpsolve mps_secular_ga_fiterate mps_secular_ga_diterate mps_secular_ga_miterate "
+    "mps_faberth_packet mps_daberth_packet mps_maberth_packet mps_secular_ga_regenerate_coefficients mps_copy_roots mps_improve "
+    "mps_secular_fnewton mps_secular_dnewton mps_secular_mnewton mps_polynomial_fnewton mps_polynomial_dnewton mps_polynomial_mnewton "
+    "mps_thread_job_queue_next mps_thread_pool_assign").split())
+HOOK_CFLAGS = "-include %s/harness/c18_hooks.h -DVF_C18_TRACE=1" % vf.VERIF
+GA_LABELS = [78, 409, 465, 515, 535, 549, 595, 623]      # the reads of exit_required in secular-ga.c, in source order (model labels)
+STATUS_NAME = {1: "deadlock", 2: "steplimit", 3: "misuse", 4: "assert", 5: "crash", 6: "timeout"}
+EXIT_MSG = "Exit forced by the caller"
+
+
+def poll_sites(snap):
+    """(file id, line) -> model label for every READ of exit_required in the three files; None for the writes.
+    Raises if the number of read sites is not the one the model has (then the model no longer follows the code)."""
+    out = {}; problems = []
+    for fid, rel, labels in ((1, "src/libmps/secsolve/secular-ga.c", GA_LABELS), (2, "src/libmps/secsolve/secular-iteration.c", [29, 29, 29]),
+                             (3, "src/libmps/secsolve/secular-regeneration.c", [165])):
+        reads = []
+        for ln, line in enumerate(open(os.path.join(snap, rel), errors="replace").read().split("\n"), 1):
+            code = re.sub(r"/\*.*?\*/", "", line)
+            if "exit_required" not in code: continue
+            if re.search(r"exit_required\s*=[^=]", code): out[(fid, ln)] = None
+            else: reads.append(ln)
+        if len(reads) != len(labels):
+            problems.append("%s has %d reads of exit_required (lines %s), the model has %d" % (rel, len(reads), reads, len(labels)))
+        for ln, lab in zip(reads, labels): out[(fid, ln)] = lab
+    return out, problems
+
+
+def sched_cases_list(ctx):
+    rng = ctx.rng
+    sec3 = G.secular_case("sec3", rng, 3, False); sec4 = G.secular_case("sec4", rng, 4, False)
+    z1 = G.rand_dyadic_root(rng, 2, 1, False); z2 = G.rand_dyadic_root(rng, 3, 2, True)
+    others = [z for z in {G.rand_dyadic_root(rng, 4, 2, True) for _ in range(3)} if z not in (z1, z2)][:2]
+    mult = G.from_roots_case("mult4", "multiple-roots", [z1, z1, z2] + others[:1], rng)
+    r5 = G.mono_case("randint5", "random-integer", G.rand_int_poly(rng, 5, 6), rng)
+    r3 = G.mono_case("randint3", "random-integer", G.rand_int_poly(rng, 3, 4), rng)
+    q, th = ctx.quick(), not ctx.quick()
+    # (case, opts, threads, stride (0 = every point), random schedules)
+    J = [(sec3, ["-a", "s", "-G", "i"], 1, 0, 0), (r3, ["-a", "s", "-G", "i"], 1, 0, 0), (r3, ["-a", "u", "-G", "i"], 1, 0, 0),
+         (sec3, ["-a", "s", "-G", "a", "-o", "30"], 1, 0 if th else 3, 0),
+         (sec3, ["-a", "s", "-G", "i"], 2, 0 if th else 3, ctx.pick(30, 150)),
+         (sec4, ["-a", "s", "-G", "i"], 3, 7 if q else 2, ctx.pick(30, 150)),
+         (sec4, ["-a", "s", "-G", "a", "-o", "40"], 2, 11 if q else 3, ctx.pick(20, 100)),
+         (mult, ["-a", "s", "-G", "i"], 1, 13 if q else 3, 0),
+         (mult, ["-a", "s", "-G", "i"], 2, 29 if q else 5, ctx.pick(30, 150)),
+         (mult, ["-a", "s", "-G", "a", "-o", "30"], 3, 61 if q else 7, ctx.pick(20, 100)),
+         (r5, ["-a", "s", "-G", "a", "-o", "30"], 2, 17 if q else 3, 0),
+         (r5, ["-a", "u", "-G", "i"], 2, 13 if q else 3, ctx.pick(20, 100)),
+         (r5, ["-a", "u", "-G", "a", "-o", "30"], 3, 29 if q else 5, 0)]
+    return [{"case": c, "opts": o, "threads": k, "stride": st, "nrandom": nr} for c, o, k, st, nr in J]
+
+
+def parse_sched_output(text):
+    runs = []; exp = []; cur = None; in_res = False
+    for ln in text.split("\n"):
+        if ln.startswith("# result-end"): in_res = False; continue
+        if ln.startswith("# result "): in_res = True; exp = []; continue
+        if ln.startswith("# run "):
+            in_res = False
+            t = ln.split(); kv = {}
+            i = 3
+            while i + 1 < len(t): kv[t[i]] = t[i + 1]; i += 2
+            cur = {"hdr": ln, "kv": kv, "export": "\n".join(exp), "ev": [], "tail": ""}; exp = []
+            continue
+        if ln.startswith("# end"):
+            if cur is not None: runs.append(cur); cur = None
+            continue
+        if in_res: exp.append(ln)
+        elif cur is not None:
+            if ln.startswith("#"): cur["tail"] = ln
+            else:
+                w = ln.split()
+                if len(w) == 3: cur["ev"].append((int(w[0]), w[1], int(w[2])))
+    return runs
+
+
+def run_sched(h, polfile, opts, k, aborts, env, mode=None, seed=0, timeout=900, run_seed=None):
+    cmd = [h, polfile] + opts + ["-j", str(k), "--timeout", "60"]
+    if isinstance(aborts, str): cmd += ["--abort-range", aborts]
+    else: cmd += ["--abort-at", ",".join(str(a) for a in aborts)]
+    if mode == "random": cmd += ["--random"] + (["--run-seed", str(run_seed)] if run_seed is not None else ["--seed", str(seed)])
+    rc, out, err = vf.sh(cmd, timeout=timeout, env=env)
+    return rc, parse_sched_output(out), err
+
+
+def model_events(run, sites, k, secular_input, goal_approx):
+    """Observed program points of a secular run -> lines for bin/abort, plus what was observed after the abort request."""
+    ev = run["ev"]
+    caller = next((t for t, tag, a in ev if tag == "solve_begin"), None)
+    lines = ["cfg %d %d 0 0 0 %d" % (k, 1 if secular_input else 0, 1 if goal_approx else 0)]
+    cur_task = {}; pend = {}          # tid -> task index ; task index -> index in `lines` of an event waiting for its look-ahead
+    in_improve = False; aborted = None; unknown = []
+    obs = {"newton": 0, "packets": 0, "regens": 0, "points": 0, "phase": "none", "improve_newton": 0}
+    def settle(i, what):
+        # the next event of task i decides the look-ahead field of its previous event
+        if i in pend:
+            j, kind = pend.pop(i)
+            if kind == "next": lines[j] = lines[j] % (1 if what == "lock" else 0)
+            else: lines[j] = lines[j] % (1 if what == "task_end" else 0)
+    ended = False
+    for t, tag, a in ev:
+        if tag == "solve_end": ended = True
+        if tag == "abort":
+            if caller is None: phase = "before-solve"
+            elif ended: phase = "after-solve"
+            elif in_improve: phase = "improve"
+            else: phase = "solve"
+            obs["phase"] = phase; aborted = len(lines); lines.append("a"); continue
+        if ended or caller is None: continue
+        if tag == "improve": in_improve = True; continue
+        if tag == "improve_end": in_improve = False; continue
+        if in_improve:
+            if aborted is not None and tag in ("pnewton", "newton"): obs["improve_newton"] += 1
+            continue
+        if tag == "task_begin": cur_task[t] = a; continue
+        if tag == "task_end": settle(a, "task_end"); cur_task.pop(t, None); continue
+        line = None
+        if t == caller:
+            if tag == "poll1":
+                lab = sites.get((1, a >> 1), "?")
+                if lab is None: continue
+                if lab == "?": unknown.append((1, a >> 1)); continue
+                line = "d poll %d %d" % (lab, a & 1)
+            elif tag in ("packet", "apacket"): line = "d packet"; obs["packets"] += aborted is not None
+            elif tag == "regen": line = "d regen"; obs["regens"] += aborted is not None
+            elif tag == "join": line = "d join"
+            elif tag == "copy": line = "d copy"
+        if line is None and t in cur_task:
+            i = cur_task[t]
+            if tag == "poll2":
+                lab = sites.get((2, a >> 1), "?")
+                if lab == "?": unknown.append((2, a >> 1)); continue
+                settle(i, "poll"); line = "w %d poll %d" % (i, a & 1)
+            elif tag == "next":
+                settle(i, "next"); line = "w %d next %%d %d" % (i, max(a, 0)); pend[i] = (len(lines), "next")
+            elif tag == "lock": settle(i, "lock"); line = "w %d lock %d" % (i, a)
+            elif tag == "crit":
+                line = "w %d crit %d %d %%d" % (i, a >> 1, a & 1); pend[i] = (len(lines), "crit")
+                obs["newton"] += (aborted is not None and (a & 1))
+        if line is not None:
+            lines.append(line); obs["points"] += aborted is not None
+    for i in list(pend): settle(i, "task_end")
+    return lines, obs, unknown
+
+
+def ensure_abort_bin(ctx):
+    """bin/abort = extraction of coq/Ctx/AbortModel.v + ocaml/abort_driver.ml; rebuilt here when a source is newer (only its own
+    dependency cone is compiled, never the whole coq/ tree)."""
+    wbin = os.path.join(vf.BINDIR, "abort")
+    srcs = [os.path.join(vf.VERIF, x) for x in ("coq/Ctx/AbortModel.v", "coq/Extract/Extract_abort.v", "ocaml/abort_driver.ml")]
+    if not os.path.exists(wbin) or any(os.path.getmtime(x) > os.path.getmtime(wbin) for x in srcs):
+        tmpb = wbin + ".%d.tmp" % os.getpid()
+        os.makedirs(vf.BINDIR, exist_ok=True)
+        rc, o, e = vf.sh("cd %s/coq && timeout 900 make -s Extract/Extract_abort.vo 2>&1 | tail -5; cd ../ocaml && "
+                         "ocamlfind ocamlopt -O2 -w -a -package str,unix,zarith -linkpkg abort.mli abort.ml abort_driver.ml -o %s 2>&1 && mv %s %s"
+                         % (vf.VERIF, tmpb, tmpb, wbin), timeout=1800)
+        if rc != 0 or not os.path.exists(wbin):
+            raise vf.InfraError("building bin/abort failed: %s %s" % (o[-1500:], e[-1500:]))
+    return ctx.model_bin("abort")
+
+
+def sched_phase(ctx, info):
+    hs = ctx.compile_harness(["vf_sched.c", "c18_sched.c"], "c18_sched", mode="shimsan", extra_ldflags=WRAP, lib_cflags=HOOK_CFLAGS, tag="c18trace")
+    snap = os.path.join(ctx.build_repo("shimsan", HOOK_CFLAGS, "c18trace"), "snap")
+    sites, problems = poll_sites(snap)
+    for pb in problems:
+        ctx.violation("correspondence:abort-model:poll-sites", "the reads of exit_required are no longer the program points of coq/Ctx/AbortModel.v: " + pb,
+                      {"kind": "sched-static", "problem": pb}, no_input=True)
+    env = ctx.san_env({"UBSAN_OPTIONS": "print_stacktrace=0:halt_on_error=1:exitcode=98"})
+    abort_bin = ensure_abort_bin(ctx)
+    wd = os.path.join(ctx.scratch, "sched"); os.makedirs(wd, exist_ok=True)
+    if ctx.replay:
+        rp = json.load(open(ctx.replay))
+        jobs = [{"case": {"name": rp["case"], "cls": rp.get("class", "replay"), "text": rp["text"]}, "opts": rp["opts"], "threads": rp["threads"],
+                 "only": [(rp["abort_at"], rp.get("mode", "default"), rp.get("seed", 0))]}]
+    else:
+        jobs = sched_cases_list(ctx)
+    st = info["sched"]
+
+    def do_job(ij):
+        idx, j = ij
+        pol = os.path.join(wd, "c%d.pol" % idx); open(pol, "w").write(j["case"]["text"])
+        runs = []
+        if "only" in j:
+            for a, mode, seed in j["only"]:
+                rc, rr, err = run_sched(hs, pol, j["opts"], j["threads"], [a], env, mode, 0, run_seed=seed)
+                runs += [(r, mode, seed, err) for r in rr]
+            return j, runs, None
+        rc, base, err = run_sched(hs, pol, j["opts"], j["threads"], [-1], env)
+        if rc != 0 or len(base) != 1:
+            raise vf.InfraError("c18_sched baseline failed rc=%s on %s %s: %s" % (rc, j["case"]["name"], j["opts"], err[-1500:]))
+        total = next((a for t, tag, a in base[0]["ev"] if tag == "sp_total"), None)
+        runs.append((base[0], "default", 0, err))
+        if total is None: return j, runs, None
+        stride = j["stride"] or 1
+        off = ctx.seed % stride
+        pts = list(range(off, total + 1, stride))
+        for c0 in range(0, len(pts), 400):
+            rc, rr, err = run_sched(hs, pol, j["opts"], j["threads"], pts[c0:c0 + 400], env)
+            if rc != 0: raise vf.InfraError("c18_sched failed rc=%s on %s: %s" % (rc, j["case"]["name"], err[-1500:]))
+            runs += [(r, "default", 0, err) for r in rr]
+        if j["nrandom"]:
+            # random schedules: the number of points differs from run to run; placements spread over the baseline's range and beyond
+            rr_rng = __import__("random").Random(ctx.seed * 7919 + idx)
+            pts = [rr_rng.randint(0, int(total * 1.3)) for _ in range(j["nrandom"])]
+            seed = ctx.seed * 1000 + idx
+            rc, rr, err = run_sched(hs, pol, j["opts"], j["threads"], pts, env, "random", seed)
+            if rc != 0: raise vf.InfraError("c18_sched (random) failed rc=%s on %s: %s" % (rc, j["case"]["name"], err[-1500:]))
+            for n_, r in enumerate(rr): r["kv"]["seed_base"] = seed
+            runs += [(r, "random", seed, err) for r in rr]
+        return j, runs, total
+
+    with cf.ThreadPoolExecutor(max_workers=int(os.environ.get("VERIF_JOBS", "4"))) as ex:
+        done = list(ex.map(do_job, list(enumerate(jobs))))
+    ctx.log("scheduler phase: %d runs of the real asynchronous solve" % sum(len(r) for _, r, _ in done))
+
+    recs = []; model_in = []; model_meta = []
+    for j, runs, total in done:
+        c = j["case"]; k = j["threads"]; algo = j["opts"][1]; approx = "a" in j["opts"][3:4]
+        tag = "%s:%s:j=%d" % (c["name"], "".join(j["opts"]), k)
+        st["cases"][tag] = {"points": total, "runs": len(runs)}
+        for r, mode, seed, err in runs:
+            kv = r["kv"]; status = int(kv.get("status", "0")); a_at = int(kv.get("abort_at", "-1"))
+            rep = {"kind": "sched", "case": c["name"], "class": c.get("cls"), "text": c["text"], "opts": j["opts"], "threads": k, "abort_at": a_at,
+                   "mode": mode, "seed": int(kv.get("seed", "0")) if mode == "random" else 0,
+                   "how": "harness/c18_sched FILE <opts> -j <threads> --abort-at <n> [--random --seed s]   (or ./check C18 --replay <this file>)"}
+            if mode == "random":
+                rep["how"] = "harness/c18_sched FILE <opts> -j <threads> --abort-at <n> --random --run-seed <seed>   (or ./check C18 --replay <this file>)"
+            st["runs"] += 1; st["by_algo"][algo] += 1; st["by_threads"][str(k)] += 1; st["by_mode"][mode] += 1
+            evd = collections.Counter(tagx for _, tagx, _ in r["ev"])
+            # (1) shim verdict: deadlock / lost wake-up, sanitizers, crash
+            if status != 0:
+                kind = STATUS_NAME.get(status, "status%d" % status); what = kv.get("what", "-")
+                if status == 5 and "exit-97" in what: kind = "asan"
+                if status == 5 and "exit-98" in what: kind = "ubsan"
+                m = re.search(r"(ERROR: AddressSanitizer: [^\n]*|runtime error: [^\n]*)", err or "")
+                ctx.violation("sched:%s:%s" % (kind, tag), "asynchronous solve with abort at scheduling point %d (%s schedule) ends with %s (%s)%s"
+                              % (a_at, mode, kind, what, (": " + m.group(1)) if m else ""), rep)
+                st["bad_status"] += 1
+                continue
+            val = {tagx: a for _, tagx, a in r["ev"]}
+            # (2) callback exactly once, after the solve
+            if val.get("cb_total") != 1:
+                ctx.violation("async:callback-count:%s" % val.get("cb_total"), "callback invoked %s times for one asynchronous solve (%s, abort at point %d)"
+                              % (val.get("cb_total"), tag, a_at), rep)
+            if "cb_early" in evd:
+                ctx.violation("async:callback-before-solve-end", "callback invoked while the solve was still running (%s, abort at point %d)" % (tag, a_at), rep)
+            st["callback_once"] += val.get("cb_total") == 1
+            aborted = "abort" in evd
+            st["aborted_runs"] += aborted
+            try: res = S.parse_export(r["export"])
+            except Exception as e_:
+                res = S.SolveResult(); res.kind = "unparsable"; res.msg = repr(e_)
+            errflag = val.get("err_final") == 1
+            # (3) the model: every secular run
+            obs = None
+            if algo == "s":
+                lines, obs, unknown = model_events(r, sites, k, c.get("cls") == "secular", approx)
+                for u in unknown[:1]:
+                    ctx.violation("correspondence:abort-model:unknown-poll-site", "read of exit_required at a site the model does not have: file %d line %d" % u, rep, no_input=True)
+                lines.append("end %d" % (1 if errflag else 0))
+                model_in.append("\n".join(lines)); model_meta.append((tag, rep, obs, a_at, k, errflag, res))
+                st["phase"][obs["phase"]] += 1
+            # (4) outcome: error flag (with the intended text) or certified inclusions
+            if errflag:
+                st["ended_with_error"] += 1
+                if res.kind == "solve-err" and aborted and res.msg.strip() != EXIT_MSG:
+                    ctx.violation("abort:error-message:%s" % tag, "aborted solve reports %r instead of %r" % (res.msg[:80], EXIT_MSG), rep)
+                if not aborted:
+                    ctx.violation("async:error-without-abort:%s" % tag, "asynchronous solve without abort request ends with the error %r" % (res.msg[:80],), rep)
+                continue
+            if res.kind != "ok":
+                ctx.violation("async:no-result:%s" % tag, "no error flag and no results (%s %s), abort at point %d" % (res.kind, res.msg[:80], a_at), rep)
+                continue
+            st["ended_with_results"] += 1
+            recs.append({"case": c, "opts": j["opts"], "res": res, "poly": None, "oracle": None, "why": "", "rep": rep, "tag": tag, "aborted": aborted})
+            # (5) an abort request that changes nothing: the known findings
+            if aborted and algo == "u" and "solve_end" in evd and r["ev"].index(next(e for e in r["ev"] if e[1] == "abort")) < r["ev"].index(next(e for e in r["ev"] if e[1] == "solve_end")) \
+               and r["ev"].index(next(e for e in r["ev"] if e[1] == "abort")) > r["ev"].index(next(e for e in r["ev"] if e[1] == "solve_begin")):
+                n_after = sum(1 for e in r["ev"][r["ev"].index(next(e for e in r["ev"] if e[1] == "abort")):] if e[1] == "pnewton")
+                st["classic_ignored"] += 1; st["classic_newton_after_abort_max"] = max(st["classic_newton_after_abort_max"], n_after)
+                ctx.violation("abort:ignored:u", "the classic driver never reads exit_required: abort at point %d, %d Newton steps later the solve ends normally" % (a_at, n_after), rep)
+            if obs is not None and obs["phase"] == "improve":
+                st["improve_ignored"] += 1; st["improve_newton_after_abort_max"] = max(st["improve_newton_after_abort_max"], obs["improve_newton"])
+                ctx.violation("abort:ignored:s", "mps_improve never reads exit_required: abort at point %d inside the refinement, %d Newton steps later the solve ends normally"
+                              % (a_at, obs["improve_newton"]), rep)
+
+    # ---- the model replay (bin/abort), all secular runs
+    if model_in:
+        chunks = [model_in[i::8] for i in range(8)]
+        def run_chunk(ch):
+            if not ch: return []
+            rc, o, e = vf.sh([abort_bin], input="\n".join(ch) + "\n", timeout=900)
+            if rc != 0: raise vf.InfraError("bin/abort failed: %s" % e[-1500:])
+            return o.strip().split("\n")
+        with cf.ThreadPoolExecutor(max_workers=4) as ex:
+            outs = list(ex.map(run_chunk, chunks))
+        verdicts = [None] * len(model_in)
+        for ci, o in enumerate(outs):
+            if len(o) != len(chunks[ci]): raise vf.InfraError("bin/abort returned %d lines for %d runs" % (len(o), len(chunks[ci])))
+            for t_, line in enumerate(o): verdicts[ci + 8 * t_] = line
+        for (tag, rep, obs, a_at, k, errflag, res), line, text in zip(model_meta, verdicts, model_in):
+            st["model_replayed"] += 1
+            if not line.startswith("ok "):
+                st["model_rejected"] += 1
+                ctx.violation("correspondence:abort-model:%s" % tag, "the observed program points of the real solve (abort at point %d) are no run of the transition system of "
+                              "coq/Ctx/AbortModel.v: %s" % (a_at, line), dict(rep, model_input=text[:6000], model_says=line), no_input=True)
+                continue
+            d = dict(x.split("=") for x in line.split()[1:])
+            st["model_accepted"] += 1; st["model_steps"] += int(d["steps"])
+            if obs["phase"] == "solve":
+                # the property's predicate on what was OBSERVED after the request: bounded work, as proved for the model
+                st["prompt_checked"] += 1
+                for key in ("newton", "packets", "regens", "points"): st["after_max"][key] = max(st["after_max"][key], obs[key])
+                bound = {"newton": k, "packets": 2, "regens": 2, "points": 5 * k + 7}
+                for key in ("newton", "packets", "regens", "points"):
+                    if obs[key] > bound[key]:
+                        ctx.violation("abort:not-prompt:%s:%s" % (key, tag), "after the abort request at point %d the secular solver still performed %d %s (bound %d with %d threads)"
+                                      % (a_at, obs[key], key, bound[key], k), rep)
+                if int(d["after_newton"]) != obs["newton"] or int(d["after_packets"]) != obs["packets"] or int(d["after_regens"]) != obs["regens"]:
+                    ctx.violation("correspondence:abort-model:counts:%s" % tag, "model run and observation disagree on the work after the abort: %s vs %s" % (line, obs), rep, no_input=True)
+                if int(d["after_steps"]) > int(d["rank_at_abort"]) or int(d["rank_at_abort"]) > int(d["bound"]):
+                    ctx.violation("correspondence:abort-model:rank:%s" % tag, "the replayed run contradicts C18_abort_steps_le_rank: %s" % line, rep, no_input=True)
+                st["after_steps_max"] = max(st["after_steps_max"], int(d["after_steps"])); st["rank_at_abort_max"] = max(st["rank_at_abort_max"], int(d["rank_at_abort"]))
+
+    # ---- results returned without the error flag: the inclusion guarantee, judged by the certified oracle
+    groups = e2e.certify_records_grouped(ctx, recs, max_bits=ctx.pick(400, 800), max_degree=12, workers=4)
+    st["oracle_certified_result_sets"] = sum(len(g) for g in groups)
+    for grp in groups:
+        orc = grp[0]["oracle"]; cache = {}
+        for rec in grp:
+            discs = S.discs_of(rec["res"]); zr = rec["res"].meta.get("zero_roots", 0)
+            if any(d[2] is None for d in discs): st["non_finite_radius"] += 1; continue
+            key = tuple(discs)
+            if key not in cache:
+                try: cache[key] = e2e.judge_discs(orc, discs + ([(Fr(0), Fr(0), Fr(0))] if zr else []))
+                except Exception as e_: cache[key] = None
+            if cache[key] is None: st["oracle_error"] += 1; continue
+            bounds, covered, uncovered = cache[key]
+            st["result_sets_judged"] += 1; st["distinct_result_sets"] = st.get("distinct_result_sets", 0)
+            for i, (lo, hi) in enumerate(bounds[:len(discs)]):
+                st["discs_judged"] += 1
+                if hi == 0:
+                    ctx.violation("abort:no-root-in-disc:%s" % rec["tag"], "solve (abort at point %s) returned without error a disc that contains no root (certified): disc %d centre (%.17g, %.17g) radius %.3g"
+                                  % (rec["rep"]["abort_at"], i, float(discs[i][0]), float(discs[i][1]), float(discs[i][2])), dict(rec["rep"], disc=[str(x) for x in discs[i]]))
+                elif lo >= 1: st["discs_with_root"] += 1
+            if any(uncovered):
+                ctx.violation("abort:root-not-covered:%s" % rec["tag"], "solve (abort at point %s) returned without error and root %d of the input is in none of the returned discs (certified)"
+                              % (rec["rep"]["abort_at"], list(uncovered).index(True)), rec["rep"])
+        st["distinct_result_sets"] = st.get("distinct_result_sets", 0) + len(cache)
+    for grp in groups:
+        try: grp[0]["oracle"].close()
+        except Exception: pass
+
+
+
 def run(ctx):
     ctx.prove()
     he = ctx.compile_harness(["c18_error.c"], "c18_error", mode="san")
@@ -195,6 +563,9 @@ def run(ctx):
     ha = ctx.compile_harness(["c18_async.c"], "c18_async", mode="san")
     info = {"error_cases": 0, "error_faithful": 0, "model_old_differs": 0, "error_lengths": {}, "sticky_cases": 0,
             "async_runs": 0, "abort_runs": 0, "abort_no_error": 0, "abort_error_flag": 0}
+    C = collections.Counter
+    info["sched"] = collections.defaultdict(int, {"cases": {}, "by_algo": C(), "by_threads": C(), "by_mode": C(), "phase": C(),
+                                                   "after_max": {"newton": 0, "packets": 0, "regens": 0, "points": 0}})
     if ctx.replay:
         obj = json.load(open(ctx.replay))
         k = obj.get("kind")
@@ -207,6 +578,8 @@ def run(ctx):
                 ctx.violation(obj.get("signature", "error-message:replay"), "replay: message %r, intended %r, rc=%d" % (got, intended, rc), obj)
         elif k == "sticky":
             sticky_cases(ctx, hr, info)
+        elif k == "sched":
+            sched_phase(ctx, info)
         else:
             async_cases(ctx, ha, info)
         return ctx.finish("proof", {"evaluations": 1, "distinct_nontrivial": 1, "rule": "replay", "samples": [str(obj)[:200]],
@@ -216,28 +589,35 @@ def run(ctx):
     error_cases(ctx, he, totals, info)
     sticky_cases(ctx, hr, info)
     async_cases(ctx, ha, info)
+    sched_phase(ctx, info)
     ctx.proof_violation_if_broken(search=None)
+    sc = json.loads(json.dumps(info["sched"]))
     cov = {
-        "evaluations": info["error_cases"] + info["sticky_cases"] + info["async_runs"],
-        "distinct_nontrivial": info["error_cases"] + info["sticky_cases"] + info["abort_runs"],
-        "rule": "error cases = (call site, message length, argument flavour) each in its own process and through the extracted model; sticky cases = (algorithm, polynomial, sync/async); abort runs = distinct injection delays",
+        "evaluations": info["error_cases"] + info["sticky_cases"] + info["async_runs"] + sc.get("runs", 0),
+        "distinct_nontrivial": info["error_cases"] + info["sticky_cases"] + info["abort_runs"] + sc.get("aborted_runs", 0),
+        "rule": "error cases = (call site, message length, argument flavour) each in its own process and through the extracted model; sticky cases = (algorithm, polynomial, sync/async); abort runs = distinct injection delays (real threads) + distinct (case, threads, schedule, scheduling point of the abort request) under the deterministic scheduler",
+        "scheduler_phase": sc,
         "error_cases": info["error_cases"], "error_messages_faithful": info["error_faithful"],
         "error_length_histogram": info["error_lengths"],
         "sticky_cases": info["sticky_cases"], "async_runs": info["async_runs"], "abort_runs": info["abort_runs"],
         "abort_outcomes": {"returned_without_error": info["abort_no_error"], "returned_with_error_flag": info["abort_error_flag"]},
-        "kind_histogram": {"error": info["error_cases"], "sticky": info["sticky_cases"], "async": info["async_runs"]},
+        "kind_histogram": {"error": info["error_cases"], "sticky": info["sticky_cases"], "async": info["async_runs"], "sched": sc.get("runs", 0)},
         "samples": [["file", arg_for("file", 32, "plain")], ["opt", arg_for("opt", 40, "plain")], STICKY[0], ["async", "s a deg seed delay second"]],
         "trusted_base": [
             "Coq 8.16.1 kernel; theorems closed under the global context",
             "extraction: ExtrOcamlBasic + ExtrOcamlNativeString only; ocaml/ctx_driver.ml",
             "vsnprintf and the x86-64 SysV va_list are modelled (abstract renderer + cursor), not verified",
-            "async: real threads and wall-clock delays (not the deterministic scheduler); the one-task pool of the model is a definition, not the C06 pool model",
-            "results after abort are only checked for finite radii and stability here; inclusion is validated by the C01/C02 oracle",
+            "extraction of coq/Ctx/AbortModel.v (bin/abort) and ocaml/abort_driver.ml: depth-first search for the unobserved driver steps and oracle values of a model run that reproduces the observed program points",
+            "scheduler shim harness/vf_sched.c (C06's), hooked build harness/c18_hooks.h (every access to exit_required calls the harness), link-time wrappers in harness/c18_sched.c",
+            "abort model: numerics are oracle values; regeneration, Aberth packets, cleanup, job_queue_next and the locked region of a worker are atomic; pool = assign/wait abstraction (C06)",
+            "root oracle bin/cert (lib/oracle.py) for results returned without the error flag",
+            "c18_async.c: real threads and wall-clock delays; the one-task pool of C18_async_callback_once_partial is a definition, not the C06 pool model",
         ],
     }
     assumptions = [
         "callers pass the arguments their format consumes",
         "'promptly' is measured in wall-clock time against a 20 s budget on a loaded machine: partial",
-        "abort is injected at random delays, not at every scheduling point",
+        "under the scheduler the abort is placed at scheduling points (pthread calls and reads of the flag); placements between two of them are covered by the theorem only",
+        "jacobi_iterations, crude mode and avoid_multiprecision are in the model but not driven by the scheduler phase",
     ]
     return ctx.finish("proof", cov, assumptions)
